@@ -586,6 +586,7 @@ func (H) Check(prop string, plan any, rc *simkit.RunCtx) {
 	}
 	submits := map[string][]*callRec{}
 	torn := map[string]bool{}
+	tornOn := map[string]bool{}
 	for _, c := range s.calls {
 		bb := b[c.Payload]
 		if bb == nil {
@@ -621,6 +622,19 @@ func (H) Check(prop string, plan any, rc *simkit.RunCtx) {
 					for _, z := range sts {
 						if !(levelState{Global: x.Global, Active: y.Active, A: z.A, B: z.B}).enabled(c.Pkg, c.Sev) {
 							torn[c.Payload] = true
+						}
+					}
+				}
+			}
+		}
+		if none {
+			// would a torn read (settings taken from different moments of the call) let the line through?
+			sts := s.statesDuring(c.Inv, ret)
+			for _, x := range sts {
+				for _, y := range sts {
+					for _, z := range sts {
+						if (levelState{Global: x.Global, Active: y.Active, A: z.A, B: z.B}).enabled(c.Pkg, c.Sev) {
+							tornOn[c.Payload] = true
 						}
 					}
 				}
@@ -668,7 +682,11 @@ func (H) Check(prop string, plan any, rc *simkit.RunCtx) {
 		n := occ[payload]
 		if n > bb.hi {
 			if bb.hi == 0 {
-				rc.Fail("C20.below-level-emitted", "a line below the level in force was handed to the adapter", fmt.Sprintf("%s: %d occurrences", payload, n))
+				note := ""
+				if tornOn[payload] {
+					note = " (the global level and the per-package levels were both changed during the call; a mix of old and new settings enables the line)"
+				}
+				rc.Fail("C20.below-level-emitted", "a line below the level in force was handed to the adapter"+note, fmt.Sprintf("%s: %d occurrences", payload, n))
 			} else {
 				rc.Fail("C20.duplicated", "a line was handed to the adapter more often than it was logged", fmt.Sprintf("%s: %d occurrences, logged at most %d times", payload, n, bb.hi))
 			}
